@@ -422,8 +422,9 @@ impl<'lexer> Lexer<'lexer> {
   /// Reads characters from input.
   fn read_input(&mut self) -> [char; BUF_SIZE] {
     self.consume_whitespace();
-    self.consume_comment();
-    self.consume_whitespace();
+    while self.consume_comment() {
+      self.consume_whitespace();
+    }
     let mut buffer: [char; BUF_SIZE] = [WS; BUF_SIZE];
     for (offset, value) in buffer.iter_mut().enumerate() {
       if let Some(ch) = self.char_at(offset) {
@@ -449,17 +450,18 @@ impl<'lexer> Lexer<'lexer> {
 
   /// Consumes comments starting from current position.
   /// After consuming a comment, the current position is advanced.
-  fn consume_comment(&mut self) {
+  fn consume_comment(&mut self) -> bool {
     let pair = (self.char_at(0), self.char_at(1));
     match pair {
       (Some('/'), Some('/')) => {
         self.position += 2;
         while let Some(ch) = self.char_at(0) {
           if ch == '\n' {
-            return;
+            return true;
           }
           self.position += 1;
         }
+        true
       }
       (Some('/'), Some('*')) => {
         self.position += 2;
@@ -467,13 +469,14 @@ impl<'lexer> Lexer<'lexer> {
           if ch == '*' {
             if let Some('/') = self.char_at(1) {
               self.position += 2;
-              return;
+              return true;
             }
           }
           self.position += 1;
         }
+        true
       }
-      _ => {}
+      _ => false,
     }
   }
 
